@@ -37,7 +37,13 @@ type hresp struct {
 	Order [][2]string `json:"order,omitempty"`
 	Panic string      `json:"panic,omitempty"`
 	Msg   string      `json:"msg,omitempty"`
+	// EarlierChanged: the bytes an EARLIER marshalHeaders call returned were found changed after this call
+	EarlierChanged string `json:"earlier_changed,omitempty"`
 }
+
+// the result of the previous "write" request, kept (not copied) to see whether a later call disturbs it
+var lastMarshal []byte
+var lastMarshalHex string
 
 // error classes shared with Base/Res.v (res_code)
 func classify(err error) int {
@@ -152,7 +158,12 @@ func doHeaders(q hreq) hresp {
 		}
 		return guarded(func() hresp {
 			out := frugal.VerifMarshalHeaders(m)
-			return hresp{Code: 0, Out: hex.EncodeToString(out)}
+			r := hresp{Code: 0, Out: hex.EncodeToString(out)}
+			if lastMarshal != nil && hex.EncodeToString(lastMarshal) != lastMarshalHex {
+				r.EarlierChanged = lastMarshalHex
+			}
+			lastMarshal, lastMarshalHex = out, r.Out
+			return r
 		})
 	case "write_ctx", "write_resp":
 		// through the public API: FContext headers -> WriteRequestHeader / WriteResponseHeader
